@@ -26,12 +26,15 @@ import (
 //	frag <fwd> <rev> <e> <min> <max> <ext> <full> <minsize> <length> <overlap> <tpl>
 //	     the template goes through obiiter.IFragments(minsize, length, overlap, ...) and the fragments through PCRSlice
 //
-//	cli  <fwd> <rev> <e> <min> <max> <delta> <full> <tpl>
-//	     obipcr.CLIPCR with --fragmented on one template (options set through the verif hook)
+//	cli  <fwd> <rev> <e> <min> <max> <delta> <full> [<circ> <frag>] <tpl>
+//	     obipcr.CLIPCR on one template (options set through the verif hook; 9 fields: circ = 0, frag = 1)
 //
 // result: per template (separated by "|") the amplicons in the order PCRSlice returns them, each
-// d/from+1..to/amplicon/forward_match/forward_error/reverse_match/reverse_error ("," separated, "-" = none);
-// `from+1..to` is the coordinate part of the amplicon id written by BioSequence.Subsequence.
+// d/from+1..to/amplicon/forward_match/forward_error/reverse_match/reverse_error/forward_primer/reverse_primer/others
+// ("," separated, "-" = none); `from+1..to` is the coordinate part of the amplicon id written by BioSequence.Subsequence;
+// every other field is read from the annotation map of the amplicon (c11ReadAnnot; "?" / -999: missing or of the wrong
+// type); `others` = all remaining annotations, sorted. Template number k carries the annotations of c11SetTplAnnot(k)
+// (the template of a cli line: k = 1; piece number k of a frag line: k).
 // frag: the fragments' coordinates `a..b` ("," separated), then " ", then the same amplicon list with ids relative to
 // the fragments.
 
@@ -1113,6 +1116,12 @@ func (c11) Exec(c string) (string, []Fail) {
 				}
 			}
 			m, s := c11Diff(c11Keys(exp, true, false), gk)
+			if frag && o.circ && L > o.max*1000 && len(m)+len(s) > 0 {
+				// the defect repaired by patch C11-circular-not-fragmented (same signature as the finding it fixes)
+				stat("cli-circular-long-template")
+				fail("cli.circular-fragments", "obipcr --circular --fragmented on a template longer than 1000 x max length: amplicons of the circular template not reported: %s ; reported but not an amplicon of the template: %s", c11Cut(m), c11Cut(s))
+				return res, fails
+			}
 			if len(m) > 0 {
 				fail("cli.missing."+mode, "amplicons of the template not reported: %s", c11Cut(m))
 			}
@@ -1425,6 +1434,36 @@ func (c11) Gen(rng *rand.Rand, tier string, emit func(string)) {
 		{circ(c11Opt{fwd: "ACGTA", rev: "GGATC", ext: -1}), []string{"acgta" + rep("c", 54) + "gatcc"}},
 		{circ(c11Opt{fwd: "ACGTA", rev: "GGATC", ext: 0}), []string{"acgta" + rep("c", 54) + "gatcc", "cgta" + rep("c", 54) + "gatcc" + "a"}},
 	}
+	// ---- third pass: circles shorter than MAX_PAT_LEN (compared since fix c69892e) --------------------------------------
+	cc = append(cc, []struct {
+		o c11Opt
+		t []string
+	}{
+		// a primer longer than the circle never yields an amplicon (pcr_circular_unfit) — though the matcher does report
+		// sites of it (the buffer holds the circle twice)
+		{circ(c11Opt{fwd: "ACGTACG", rev: "GGA", ext: -1}), []string{"acgt", "acgtcc", "tccacg"}},
+		{circ(c11Opt{fwd: "AC", rev: "AACGTAA", ext: -1}), []string{"acgtt", "ttacg"}},
+		{circ(c11Opt{fwd: "ACGTACGTACG", rev: "TT", ext: 2, ef: 1}), []string{"acgtaa", "a", "aa"}},
+		{circ(c11Opt{fwd: "A", rev: "A", ext: -1}), []string{"a", "at", "ata", "t"}},
+		{circ(c11Opt{fwd: "A", rev: "A", ext: 1, ef: 1, er: 1}), []string{"a", "at", "ata", "ccc"}},
+		// the product covers the short circle exactly / one symbol is left / the sites would overlap behind
+		{circ(base), []string{"acgta" + "c" + "gatcc", "acgta" + "cc" + "gatcc" + "t", "acgta" + "c" + "gatc"}},
+		{circ(c11Opt{fwd: "ACGTA", rev: "GGATC", ext: 1}), []string{"acgta" + "c" + "gatcc", "gta" + "cc" + "gatcc" + "tac"}},
+		{circ(c11Opt{fwd: "ACGTA", rev: "GGATC", ext: 0, min: 1, max: 2}), []string{"ta" + "cc" + "gatcc" + "ttttt" + "acg", "tcc" + "ttttt" + "acgta" + "c" + "ga"}},
+		// a circle of exactly 63 / 64 / 65 symbols, site across the origin
+		{circ(base), []string{"gta" + "ccccc" + "gatcc" + rep("c", 48) + "ac", "gta" + "ccccc" + "gatcc" + rep("c", 49) + "ac", "gta" + "ccccc" + "gatcc" + rep("c", 50) + "ac"}},
+		// several occurrences: two forward sites before one reverse site (both pairs), max length keeping the nearest only
+		{c11Opt{fwd: "ACGTA", rev: "GGATC", ext: -1}, []string{"tt" + "acgta" + "ccc" + "acgta" + "ccccc" + "gatcc" + "aa"}},
+		{c11Opt{fwd: "ACGTA", rev: "GGATC", ext: -1, max: 5}, []string{"tt" + "acgta" + "ccc" + "acgta" + "ccccc" + "gatcc" + "aa"}},
+		{c11Opt{fwd: "ACGTA", rev: "GGATC", ext: -1, min: 6}, []string{"tt" + "acgta" + "ccc" + "acgta" + "ccccc" + "gatcc" + "aa"}},
+		// nested F F R R (four pairs), interleaved F R F R (three pairs)
+		{c11Opt{fwd: "ACGTA", rev: "GGATC", ext: 1}, []string{"t" + "acgta" + "c" + "acgta" + "cc" + "gatcc" + "c" + "gatcc" + "a", "t" + "acgta" + "c" + "gatcc" + "cc" + "acgta" + "c" + "gatcc" + "a"}},
+		// budgets as large as the primers: every offset is a site
+		{c11Opt{fwd: "ACG", rev: "GGA", ext: -1, ef: 3, er: 3, max: 2}, []string{"acgtacgt", "nnnnnnn"}},
+		{c11Opt{fwd: "A#CG", rev: "G!GA", ext: 1, ef: 3, er: 2, max: 2}, []string{"acgtaagt", "ACGTRYNN"}},
+		// template over every IUPAC code, both cases; primers with classes, negation, obligatory position
+		{c11Opt{fwd: "[AG]C!GT#", rev: "GG[ACT]", ext: 2, ef: 1, er: 1}, []string{"rYmKswBdhVnACGTacgtRCATccaaTCCnn", "nnGGAttggATGYacgtACGTNbHdvWSmKrY"}},
+	}...)
 	for _, c := range cc {
 		var tp [][]byte
 		for _, s := range c.t {
@@ -1493,6 +1532,22 @@ func (c11) Gen(rng *rand.Rand, tier string, emit func(string)) {
 		if rng.Intn(4) == 0 {
 			o.er = rng.Intn(3)
 		}
+		// error budgets up to the number of positions of the primer (every offset is then a site unless a position is
+		// obligatory): short templates, small maximal length (set below)
+		bigBudget := rng.Intn(20) == 0
+		if bigBudget {
+			stat("gen:budget-up-to-length")
+			fl, rl = min(fl, 6), min(rl, 6)
+			o.fwd, o.rev = c11RandPrimer(rng, fl, amb), c11RandPrimer(rng, rl, amb)
+			if rng.Intn(2) == 0 {
+				o.fwd = c11RandPrimerExt(rng, fl)
+			}
+			o.ef = fl - rng.Intn(3)
+			o.er = rl - rng.Intn(3)
+			if rng.Intn(3) == 0 {
+				o.er = rng.Intn(2)
+			}
+		}
 		if rng.Intn(25) == 0 { // the reverse primer is the reverse complement of the forward primer / a palindromic pair
 			if b, ok := c11Rc([]byte(strings.ToLower(o.fwd))); ok {
 				o.rev = strings.ToUpper(string(b))
@@ -1523,15 +1578,34 @@ func (c11) Gen(rng *rand.Rand, tier string, emit func(string)) {
 				if rng.Intn(40) == 0 {
 					L = 20 + rng.Intn(44)
 				}
+				if rng.Intn(8) == 0 { // circles shorter than MAX_PAT_LEN, down to one symbol: primers that fit and primers that do not
+					L = 1 + rng.Intn(63)
+					if rng.Intn(3) == 0 {
+						L = max(1, min(fl, rl)-1+rng.Intn(4))
+					}
+					stat("gen:short-circle")
+				}
+			}
+			if bigBudget {
+				L = min(L, 12+rng.Intn(20))
+				if o.circ {
+					L = 64 + rng.Intn(8)
+				}
 			}
 			alpha := "acgt"
-			switch rng.Intn(12) {
+			switch rng.Intn(14) {
 			case 0:
 				alpha = "acgtn"
 			case 1:
 				alpha = "acgtryACGT"
 			case 2:
 				alpha = "ac"
+			case 3:
+				alpha = "acgtacgtacgtrymkswbdhvn" // every IUPAC code
+				stat("gen:iupac-template")
+			case 4:
+				alpha = "acgtACGTacgtACGTrymkswbdhvnRYMKSWBDHVN" // … in both cases
+				stat("gen:mixed-case-template")
 			}
 			t := c11RandSeq(rng, L, alpha)
 			sites := rng.Intn(4)
@@ -1607,6 +1681,119 @@ func (c11) Gen(rng *rand.Rand, tier string, emit func(string)) {
 		}
 		o.ext = []int{-1, -1, -1, 0, 1, 2, 3, 5, 10, 30}[rng.Intn(10)]
 		o.full = rng.Intn(3) == 0
+		if bigBudget {
+			o.max = 1 + rng.Intn(6)
+			o.min = rng.Intn(3)
+			if o.ext > 3 {
+				o.ext = 3
+			}
+		}
+		emit(c11Line(o, tpls))
+	}
+	// several occurrences of the primers: which pairs are reported?  Two forward sites before one reverse site, one forward
+	// site before two reverse sites, nested (F F R R), interleaved (F R F R), sites up to 300 symbols apart (the search
+	// window of the second primer is computed once for all direct hits), in either orientation, max length chosen below /
+	// between / above the distances; a few circular
+	nm := 160
+	if tier == "thorough" {
+		nm = 400
+	}
+	for k := 0; k < nm; k++ {
+		var o c11Opt
+		fl, rl := 4+rng.Intn(6), 4+rng.Intn(6)
+		o.fwd, o.rev = c11RandPrimer(rng, fl, 0), c11RandPrimer(rng, rl, 0)
+		if rng.Intn(6) == 0 {
+			o.fwd = c11RandPrimerExt(rng, fl)
+		}
+		F, _ := c11Primer(o.fwd)
+		R, _ := c11Primer(o.rev)
+		fl, rl = len(F), len(R)
+		o.ef, o.er = rng.Intn(2), rng.Intn(2)
+		o.ext = []int{-1, -1, 0, 2, 7}[rng.Intn(5)]
+		o.full = rng.Intn(4) == 0
+		o.circ = rng.Intn(6) == 0
+		D, C := F, c11RcSets(R)
+		if rng.Intn(2) == 0 {
+			D, C = R, c11RcSets(F)
+		}
+		layout := rng.Intn(5)
+		far := rng.Intn(3) == 0
+		gapOf := func() int {
+			if far {
+				return 70 + rng.Intn(230)
+			}
+			return 1 + rng.Intn(30)
+		}
+		// kinds: 0 = direct site, 1 = complemented site
+		var kinds []int
+		switch layout {
+		case 0:
+			kinds = []int{0, 0, 1}
+		case 1:
+			kinds = []int{0, 1, 1}
+		case 2:
+			kinds = []int{0, 0, 1, 1}
+		case 3:
+			kinds = []int{0, 1, 0, 1}
+		default:
+			kinds = []int{0, 0, 0, 1, 1}
+		}
+		stat(fmt.Sprintf("gen:multi-layout-%d", layout))
+		pos := 1 + rng.Intn(10)
+		var starts, dists []int
+		for _, kd := range kinds {
+			starts = append(starts, pos)
+			if kd == 0 {
+				pos += len(D)
+			} else {
+				pos += len(C)
+			}
+			pos += gapOf()
+		}
+		L := pos + rng.Intn(10)
+		if o.circ {
+			L = max(L, 64)
+		}
+		t := c11RandSeq(rng, L, "acgt")
+		for q, kd := range kinds {
+			if kd == 0 {
+				c11Plant(t, starts[q], c11Instance(rng, D, rng.Intn(o.ef+1)*rng.Intn(2)), false)
+			} else {
+				c11Plant(t, starts[q], c11Instance(rng, C, 0), false)
+			}
+		}
+		for q, kd := range kinds { // distances direct site -> complemented site downstream
+			if kd != 0 {
+				continue
+			}
+			for r := q + 1; r < len(kinds); r++ {
+				if kinds[r] == 1 {
+					dists = append(dists, starts[r]-starts[q]-len(D))
+				}
+			}
+		}
+		sort.Ints(dists)
+		switch rng.Intn(5) {
+		case 0:
+			o.max = 0
+		case 1:
+			o.max = dists[len(dists)-1] // all pairs
+		case 2:
+			o.max = dists[0] // nearest pair only
+		case 3:
+			o.max = dists[rng.Intn(len(dists))] - rng.Intn(2)
+		default:
+			o.max = max(dists[0]-1, 1) // none of the planted pairs
+		}
+		if rng.Intn(4) == 0 {
+			o.min = dists[rng.Intn(len(dists))] + rng.Intn(2)
+		}
+		tpls := [][]byte{t}
+		if rng.Intn(3) == 0 { // the other strand in the same batch
+			if rc, ok := c11Rc(t); ok {
+				tpls = append(tpls, rc)
+			}
+		}
 		emit(c11Line(o, tpls))
 	}
 	// the search window of the second primer: `last direct hit end - first direct hit start + max length + reverse.Len()`
